@@ -228,11 +228,11 @@ def run(ctx):
     # ---- DEFAULT configurations on long, wide series run to completion with well-formed output (no hyper-parameter passed at all) ----
     from skchange.anomaly_detectors import CAPA as _CAPAl, MVCAPA as _MVCAPAl, CircularBinarySegmentation as _CBSl, StatThresholdAnomaliser as _STAl
     from skchange.change_detectors import MovingWindow as _MWl, SeededBinarySegmentation as _SBSl
-    for n_l, p_l in [(600, 10), (2500, 3), (1100, 1), (180, 2)]:
+    for n_l, p_l in [(600, 10), (2500, 3), (1100, 1), (250, 1), (163, 2)]:
         Xl = pd.DataFrame(rng.normal(size=(n_l, p_l)))
         Xl.iloc[n_l // 3: n_l // 2] += 3.0
         for name_l, mk_l in [("PELT", PELT), ("MovingWindow", _MWl), ("SeededBinarySegmentation", _SBSl), ("CAPA", _CAPAl), ("MVCAPA", _MVCAPAl),
-                             ("StatThresholdAnomaliser(PELT())", lambda: _STAl(PELT()))] + ([("CircularBinarySegmentation", _CBSl)] if n_l <= 200 else []):
+                             ("StatThresholdAnomaliser(PELT())", lambda: _STAl(PELT()))] + ([("CircularBinarySegmentation", _CBSl)] if n_l <= 250 else []):
             if name_l.startswith("Stat") and p_l != 1:
                 continue
             inp = {"detector": name_l, "defaults": True, "n": n_l, "p": p_l}
@@ -243,6 +243,17 @@ def run(ctx):
                 dt = y_l["ilocs"].dtype
                 if not (isinstance(y_l.index, pd.RangeIndex) and (dt == np.int64 or (isinstance(dt, pd.IntervalDtype) and dt.subtype == np.int64 and dt.closed == "left"))):
                     ctx.violation(f"{name_l}() on a {n_l} x {p_l} series: malformed output (index {type(y_l.index).__name__}, ilocs dtype {dt})", inp, {"what": "default-long-malformed", "detector": name_l})
+                if n_l >= 600 and not name_l.startswith("Circular"):
+                    Xn_l = Xl.copy()
+                    Xn_l.iloc[n_l // 2 + 7, p_l - 1] = np.nan
+                    for stage_l in ("fit", "predict"):
+                        try:
+                            with time_limit(120):
+                                (mk_l().fit(Xn_l) if stage_l == "fit" else mk_l().fit(Xl).predict(Xn_l))
+                            ctx.violation(f"{name_l}(): {stage_l} on a {n_l} x {p_l} series containing a NaN completed; it must raise ValueError", dict(inp, stage=stage_l),
+                                          {"what": "default-long-nan-accepted", "detector": name_l})
+                        except ValueError:
+                            pass
             except Exception as ex:
                 ctx.violation(f"{name_l}() with default hyper-parameters on a {n_l} x {p_l} series raised {type(ex).__name__}: {str(ex)[:120]}", inp,
                               {"what": "default-long-exception", "detector": name_l, "cls": type(ex).__name__})
